@@ -336,14 +336,17 @@ PROPS["C20"] = _tx("C20", ["C20_receiver_progress_invariant", "C20_receiver_prog
     "so far, monotone, and with C07 never beyond the file size). Lock-step correspondence plus oracles recomputing both "
     "figures independently from the observed PDUs.")
 PROPS["C07"] = _tx("C07", ["C07_initial", "C07_every_step", "C07_nak_split_wellformed", "C07_file_data_correct",
-                           "C07_eof_truthful"], ["send"],
+                           "C07_eof_truthful", "C07_first_pass_covers"], ["send"],
     "Proof on the send-transaction model, for all file contents, segment sizes > 0, and operation sequences (NAKs of any "
     "shape, at any time): every file data PDU emitted carries exactly the file's bytes at its offset, is non-empty, at most "
     "one segment long and inside the file; NAK requests are cut to the file and to the segment size; EOF carries the "
-    "stored size and the checksum of the file. Lock-step correspondence with the real SendTransaction and an oracle that "
+    "stored size and the checksum of the file; over every history (NAKs interleaved with the first pass, timeouts, suspensions), "
+    "once an EOF saying 'no error' has been emitted every byte of the file has been emitted in a file data PDU (the first pass "
+    "covers the file: retransmissions do not disturb its cursor). Lock-step correspondence with the real SendTransaction and an oracle that "
     "re-checks every emitted PDU (bytes, offsets, sizes, names, checksum, header ids/mode/direction, length field = "
     "encoded payload length).",
-    " Not stated as theorems (exercised by the lock-step stream only): 'the first pass tiles the file once, in order' and "
+    " Not stated as theorems (exercised by the lock-step stream only): 'the first pass sends each byte once, in order' "
+    "(coverage before the EOF IS a theorem; exactly-once and order are not) and "
     "'every emitted PDU carries the transaction's ids / a length field equal to its payload' (the model computes the length "
     "with its own payload_len formula, compared with the real encoded_len on every emitted PDU).")
 
